@@ -249,3 +249,100 @@ func WhoMayMutateMapField(p *load.Program, r *report.Report, rule, key, typ, fie
 	}
 	r.OK(rule, key, "", fmt.Sprintf("%s.%s: %d insertion site(s) in %v, %d deletion site(s) in %v", typ, field, len(ins), mayInsert, len(del), mayDelete))
 }
+
+// DiscardEqualsPeeked (C08): a failed packet size detection consumes the same bytes whatever the reader kind. Readers that
+// are not peeked have consumed the whole detection window (io.ReadFull of the buffer handed to peek); for a bufio.Reader
+// the window is only peeked and discardPeeked(r, shouldRewind, n) discards n bytes afterwards: n must be the length of
+// that very window at every call site, and the Discard inside must receive that parameter unchanged.
+func DiscardEqualsPeeked(p *load.Program, r *report.Report) {
+	const rule = "resync"
+	ad := p.Func("autoDetectPacketSize")
+	dp := p.Func("discardPeeked")
+	pk := p.Func("peek")
+	if ad == nil || pk == nil {
+		r.Unknown(rule, "discard/anchors", "", "autoDetectPacketSize or peek not found")
+		return
+	}
+	if dp == nil {
+		r.Unknown(rule, "discard/anchors", "", "discardPeeked not found: how a failed detection on a bufio.Reader consumes the window it inspected cannot be decided")
+		return
+	}
+	// the window: the []byte handed to peek, a make([]byte, L) with constant L
+	var window int64 = -1
+	for _, b := range ad.Blocks {
+		for _, in := range b.Instrs {
+			c, ok := in.(*ssa.Call)
+			if !ok || c.Call.StaticCallee() != pk || len(c.Call.Args) != 2 {
+				continue
+			}
+			if ms, ok := c.Call.Args[1].(*ssa.MakeSlice); ok {
+				if n, ok := ssau.ConstInt(ms.Len); ok {
+					window = n
+				}
+			} else if sl, ok := c.Call.Args[1].(*ssa.Slice); ok {
+				if al, ok := sl.X.(*ssa.Alloc); ok {
+					if arr, ok := al.Type().Underlying().(*types.Pointer).Elem().Underlying().(*types.Array); ok && sl.Low == nil {
+						if sl.High == nil {
+							window = arr.Len()
+						} else if n, ok := ssau.ConstInt(sl.High); ok {
+							window = n
+						}
+					}
+				}
+			}
+		}
+	}
+	if window < 0 {
+		r.Unknown(rule, "discard/window", p.Pos(ad.Pos()), "the length of the detection window handed to peek is not a constant")
+		return
+	}
+	n := 0
+	for _, f := range allFunctions(p) {
+		if inTest(p, f) {
+			continue
+		}
+		for _, b := range f.Blocks {
+			for _, in := range b.Instrs {
+				c, ok := in.(*ssa.Call)
+				if !ok || c.Call.StaticCallee() != dp || len(c.Call.Args) != 3 {
+					continue
+				}
+				n++
+				key := fmt.Sprintf("discard/%s/discardPeeked#%d/count-is-window", FuncKey(f), n)
+				v, isC := ssau.ConstInt(c.Call.Args[2])
+				switch {
+				case !isC:
+					r.Unknown(rule, key, p.Pos(c.Pos()), "the number of bytes to discard is not a constant")
+				case v != window:
+					r.Bad(rule, key, p.Pos(c.Pos()), fmt.Sprintf("a failed detection discards %d bytes of a bufio.Reader although the window it inspected (and that every other reader kind has consumed) is %d bytes: what the next call sees depends on the reader kind", v, window))
+				default:
+					r.OK(rule, key, p.Pos(c.Pos()), fmt.Sprintf("discards the %d bytes of the detection window", window))
+				}
+			}
+		}
+	}
+	r.Floor(rule, "discardPeeked call sites", n, 2)
+	// inside discardPeeked: Discard receives the parameter itself
+	okIn := false
+	for _, b := range dp.Blocks {
+		for _, in := range b.Instrs {
+			c, ok := in.(*ssa.Call)
+			if !ok {
+				continue
+			}
+			if cal := c.Call.StaticCallee(); cal != nil && cal.Name() == "Discard" && len(c.Call.Args) == 2 {
+				if prm, ok := c.Call.Args[1].(*ssa.Parameter); ok && len(dp.Params) == 3 && prm == dp.Params[2] {
+					okIn = true
+				} else {
+					r.Bad(rule, "discard/discardPeeked/passes-count-on", p.Pos(c.Pos()), "bufio.Reader.Discard does not receive discardPeeked's count parameter unchanged")
+					return
+				}
+			}
+		}
+	}
+	if okIn {
+		r.OK(rule, "discard/discardPeeked/passes-count-on", p.Pos(dp.Pos()), "bufio.Reader.Discard receives discardPeeked's count parameter unchanged")
+	} else {
+		r.Unknown(rule, "discard/discardPeeked/passes-count-on", p.Pos(dp.Pos()), "no bufio.Reader.Discard call found in discardPeeked")
+	}
+}
